@@ -169,6 +169,7 @@ def verify_unit(repo, reg, qualname, timeout_ms=10000, instance=None):
     res.paths = len(outs)
     res.inlined = sorted(ex.inlined)
     res.fingerprint = fingerprint(repo, fi, ex)
+    res.fn_hashes = fn_hashes(repo, fi, ex)
     res.node_kinds = sorted(ex.node_kinds)
     obl = []
     pc0 = list(p0.pc)
@@ -263,6 +264,18 @@ def verify_unit(repo, reg, qualname, timeout_ms=10000, instance=None):
     res.ex = ex
     res.env = pre.env
     return res
+
+
+def fn_hashes(repo, fi, ex):
+    """position-free AST hash of the unit's function and of every function executed inline (by qualified name)"""
+    import ast
+    import hashlib
+    out = {fi.qualname: hashlib.sha256(ast.dump(fi.node).encode()).hexdigest()[:16]}
+    for qn in sorted(ex.inlined):
+        f2 = repo.funcs.get(qn)
+        if f2 is not None:
+            out[qn] = hashlib.sha256(ast.dump(f2.node).encode()).hexdigest()[:16]
+    return out
 
 
 def fingerprint(repo, fi, ex):
